@@ -560,6 +560,7 @@ class Ctx:
         self.level = 0
         self.log = []
         self.pos = 0
+        self._gates = {}
         self.known = {}
         self.model = None
         self.z3cache = {}
@@ -852,6 +853,28 @@ class Ctx:
         self.path_forked = True
         self._fork_outcome(0)
         return 0
+
+    def gate(self, name, budget):
+        """a budgeted, logged yes/no: True for the first `budget` distinct path prefixes that ask, False afterwards. The answer
+        is part of the decision log (re-executions of the same prefix get the same answer) and of the recorded choices (the
+        concrete replay follows it). Used to bound optional extra exploration; a False only ever means *less* is explored
+        on that path and is counted in notes."""
+        if self.pos < len(self.log):
+            e = self.log[self.pos]
+            if e.kind != "gate":
+                raise HarnessError("non-deterministic replay (gate)")
+            self.pos += 1
+            self.path_choices.append(("gate:" + name, e.value))
+            return bool(e.value)
+        used = self._gates.get(name, 0)
+        v = 1 if used < budget else 0
+        self._gates[name] = used + v
+        if not v:
+            self.notes["gate-closed:" + name] = self.notes.get("gate-closed:" + name, 0) + 1
+        self.log.append(_Entry("gate", name, v, level=self.level))
+        self.pos += 1
+        self.path_choices.append(("gate:" + name, v))
+        return bool(v)
 
     def _fork_outcome(self, v):
         """partitioned exploration: sub-instance i of N follows a path only if the hash of its first D fork outcomes
@@ -1303,6 +1326,15 @@ class ConcreteCtx:
     def pick(self, options, label=""):
         options = list(options)
         return options[self.choice(len(options), label)]
+
+    def gate(self, name, budget):
+        if self.cpos >= len(self.choices):
+            raise HarnessError("replay: ran out of recorded choices")
+        lab, v = self.choices[self.cpos]
+        if lab != "gate:" + name:
+            raise HarnessError("replay: recorded choice is not the gate")
+        self.cpos += 1
+        return bool(v)
 
     def concretize(self, q, limit=64):
         q = _num(q)
